@@ -791,8 +791,8 @@ def Sys.npLbl (s : Sys) : Op → NpLbl
   | _ => .quiet
 
 /-- the operation a (possibly crashed) operation consists of -/
-def Op.plain : Op → Op
-  | .crashIn _ op => op.plain
+def Op.inner : Op → Op
+  | .crashIn _ op => op.inner
   | op => op
 
 namespace Sys.Np
@@ -1031,7 +1031,7 @@ theorem cmdLbl_ne_sweep {d : Chan} {x : Conn} {t : Time} {cmd : Cmd} : cmdLbl d 
     with side `σ` -/
 theorem npLbl_claim {s : Sys} {op : Op} {a n σ fresh : String} {t : Time}
     (h : s.npLbl op = .claim a n σ fresh t) :
-    ∃ c id cmd x, op.plain = .recv c t id cmd ∧ s.findConn c = some x ∧ x.app = some a ∧
+    ∃ c id cmd x, op.inner = .recv c t id cmd ∧ s.findConn c = some x ∧ x.app = some a ∧
       x.side.getD "" = σ ∧ op.fresh? = some fresh ∧
       (cmd = .claim (some n) fresh ∨
         ∃ pick draws, cmd = .allocate pick draws fresh ∧
@@ -1051,7 +1051,7 @@ theorem npLbl_claim {s : Sys} {op : Op} {a n σ fresh : String} {t : Time}
   | _ => simp [Sys.npLbl] at h
 
 theorem npLbl_release {s : Sys} {op : Op} {a n σ : String} (h : s.npLbl op = .release a n σ) :
-    ∃ c t id nm x, op.plain = .recv c t id (.release nm) ∧ s.findConn c = some x ∧ x.app = some a ∧
+    ∃ c t id nm x, op.inner = .recv c t id (.release nm) ∧ s.findConn c = some x ∧ x.app = some a ∧
       x.side.getD "" = σ ∧ releaseTarget x nm = some n := by
   induction op with
   | crashIn k op ih => exact ih h
@@ -1067,7 +1067,7 @@ theorem npLbl_release {s : Sys} {op : Op} {a n σ : String} (h : s.npLbl op = .r
   | _ => simp [Sys.npLbl] at h
 
 theorem npLbl_close {s : Sys} {op : Op} {a hd : String} (h : s.npLbl op = .close a hd) :
-    ∃ c t id m mood x, op.plain = .recv c t id (.close m mood) ∧ s.findConn c = some x ∧ x.app = some a ∧
+    ∃ c t id m mood x, op.inner = .recv c t id (.close m mood) ∧ s.findConn c = some x ∧ x.app = some a ∧
       closeTarget x m = some hd := by
   induction op with
   | crashIn k op ih => exact ih h
@@ -1082,7 +1082,7 @@ theorem npLbl_close {s : Sys} {op : Op} {a hd : String} (h : s.npLbl op = .close
   | sweep now fault => cases fault <;> simp [Sys.npLbl] at h
   | _ => simp [Sys.npLbl] at h
 
-theorem npLbl_sweep {s : Sys} {op : Op} (h : s.npLbl op = .sweep) : ∃ now, op.plain = .sweep now false := by
+theorem npLbl_sweep {s : Sys} {op : Op} (h : s.npLbl op = .sweep) : ∃ now, op.inner = .sweep now false := by
   induction op with
   | crashIn k op ih => exact ih h
   | recv c t' id cmd =>
